@@ -12,6 +12,5 @@ namespace CtCurves.Tie
 open Gen.Rest
 
 theorem skel_mod : skel_mod_curves = Rest.Skel.mod_curves := rfl
-theorem skel_Curve_repr_ : skel_curves_Curve_repr_ = Rest.Skel.curves_Curve_repr_ := rfl
 
 end CtCurves.Tie
